@@ -50,6 +50,9 @@ CHECKS = {
  "C11": dict(level="model_checking", technique="explicit-state breadth-first search over the real navigation transition function with exact state hashing (state read and restored through a cfg-guarded hook, restore validated against replay), invariants checked on every transition",
              text="State = complete NavigationState (position stack, command stack, place markers, mode, overview flag) + NavMode/Overview preferences + expression index; transitions = 36 navigation commands, set_mathml (other/same expression), set_navigation_node (4 positions, unknown id). Quick: full alphabet to depth 3 on 3 expression/mode pairs and a 9-command core alphabet to depth 6/5; thorough: full alphabet depth 3 on 5 expressions x 6 mode/overview/auto-zoom configurations, depth 4 on two, core alphabet to depth 7. Invariants I1-I6 of DESIGN §4 C11 on every transition; every state of the first levels is re-derived by replaying the command history through the public API in a fresh session and must agree with the restored state (otherwise the run aborts).",
              note="Offsets inside a node are not compared (the statement speaks of nodes). A command that returns an error may move (only I1/I6 are demanded of it).", design="§4 C11", engine="E2"),
+ "C12": dict(level="model_checking", technique="exhaustive enumeration of set_preference/get_preference histories (every name x value, every same-name value pair, all pairs/triples over a core, each accepted setting followed by a call series) in fresh sessions against a last-writer-wins reference model with a kind table",
+             text="Kind table (boolean/number/string) read from prefs.yaml and the defaults in prefs.rs; the model says accept / reject / either for each write and what it must read back as. After every history the complete preference snapshot is compared with the model: accepted writes read back normalised, rejected writes are errors that change nothing, no other preference moves, and a series of set_mathml / speech / braille / navigation / cursor-routing calls (in and out of range) leaves every preference as set. Independence: speech-only, braille-only and navigation preferences do not change the other outputs.",
+             note="A string preference accepts any string; non-member strings for file-selecting preferences may be accepted or refused. Language/DecimalSeparator legitimately rewrite the derived separator preferences.", design="§4 C12", engine="E2"),
 }
 PENDING = {}
 
